@@ -4,10 +4,14 @@ import (
 	"io"
 	"os"
 	"path/filepath"
+	"sync"
 	"time"
 )
 
+// memFS and memFile are safe for concurrent use: the database calls the file system from
+// several goroutines (FileSize and Backup don't hold the database lock).
 type memFS struct {
+	mu    sync.RWMutex // Protects files. Acquired before memFile.mu.
 	files map[string]*memFile
 }
 
@@ -21,6 +25,12 @@ func (fs *memFS) OpenFile(name string, flag int, perm os.FileMode) (File, error)
 		// The database doesn't currently use O_APPEND.
 		return nil, errAppendModeNotSupported
 	}
+	fs.mu.Lock()
+	defer fs.mu.Unlock()
+	return fs.openFile(name, flag, perm)
+}
+
+func (fs *memFS) openFile(name string, flag int, perm os.FileMode) (File, error) {
 	f := fs.files[name]
 	if f == nil {
 		// The file doesn't exist.
@@ -34,21 +44,25 @@ func (fs *memFS) OpenFile(name string, flag int, perm os.FileMode) (File, error)
 		}
 		fs.files[name] = f
 	} else {
+		f.mu.Lock()
 		if (flag & os.O_TRUNC) != 0 {
 			f.size = 0
 			f.buf = nil
 		}
 		f.refs += 1
+		f.mu.Unlock()
 	}
 	return &seekableMemFile{memFile: f}, nil
 }
 
 func (fs *memFS) CreateLockFile(name string, perm os.FileMode) (LockFile, bool, error) {
+	fs.mu.Lock()
+	defer fs.mu.Unlock()
 	f, exists := fs.files[name]
-	if f != nil && f.refs > 0 {
+	if f != nil && f.open() {
 		return nil, false, os.ErrExist
 	}
-	_, err := fs.OpenFile(name, os.O_CREATE, perm)
+	_, err := fs.openFile(name, os.O_CREATE, perm)
 	if err != nil {
 		return nil, false, err
 	}
@@ -56,6 +70,8 @@ func (fs *memFS) CreateLockFile(name string, perm os.FileMode) (LockFile, bool, 
 }
 
 func (fs *memFS) Stat(name string) (os.FileInfo, error) {
+	fs.mu.RLock()
+	defer fs.mu.RUnlock()
 	if f, ok := fs.files[name]; ok {
 		return f, nil
 	}
@@ -63,6 +79,8 @@ func (fs *memFS) Stat(name string) (os.FileInfo, error) {
 }
 
 func (fs *memFS) Remove(name string) error {
+	fs.mu.Lock()
+	defer fs.mu.Unlock()
 	if _, ok := fs.files[name]; ok {
 		delete(fs.files, name)
 		return nil
@@ -71,10 +89,14 @@ func (fs *memFS) Remove(name string) error {
 }
 
 func (fs *memFS) Rename(oldpath, newpath string) error {
+	fs.mu.Lock()
+	defer fs.mu.Unlock()
 	if f, ok := fs.files[oldpath]; ok {
 		delete(fs.files, oldpath)
 		fs.files[newpath] = f
+		f.mu.Lock()
 		f.name = newpath
+		f.mu.Unlock()
 		return nil
 	}
 	return os.ErrNotExist
@@ -82,6 +104,8 @@ func (fs *memFS) Rename(oldpath, newpath string) error {
 
 func (fs *memFS) ReadDir(dir string) ([]os.DirEntry, error) {
 	dir = filepath.Clean(dir)
+	fs.mu.RLock()
+	defer fs.mu.RUnlock()
 	var entries []os.DirEntry
 	for name, f := range fs.files {
 		if filepath.Dir(name) == dir {
@@ -98,6 +122,7 @@ func (fs *memFS) MkdirAll(path string, perm os.FileMode) error {
 }
 
 type memFile struct {
+	mu   sync.RWMutex // Protects name, buf, size and refs.
 	name string
 	perm os.FileMode
 	buf  []byte
@@ -105,7 +130,15 @@ type memFile struct {
 	refs int
 }
 
+func (f *memFile) open() bool {
+	f.mu.RLock()
+	defer f.mu.RUnlock()
+	return f.refs > 0
+}
+
 func (f *memFile) Close() error {
+	f.mu.Lock()
+	defer f.mu.Unlock()
 	if f.refs == 0 {
 		return os.ErrClosed
 	}
@@ -117,10 +150,15 @@ func (f *memFile) Unlock() error {
 	if err := f.Close(); err != nil {
 		return err
 	}
-	return Mem.Remove(f.name)
+	f.mu.RLock()
+	name := f.name
+	f.mu.RUnlock()
+	return Mem.Remove(name)
 }
 
 func (f *memFile) ReadAt(p []byte, off int64) (int, error) {
+	f.mu.RLock()
+	defer f.mu.RUnlock()
 	if f.refs == 0 {
 		return 0, os.ErrClosed
 	}
@@ -137,6 +175,8 @@ func (f *memFile) ReadAt(p []byte, off int64) (int, error) {
 }
 
 func (f *memFile) WriteAt(p []byte, off int64) (int, error) {
+	f.mu.Lock()
+	defer f.mu.Unlock()
 	if f.refs == 0 {
 		return 0, os.ErrClosed
 	}
@@ -149,6 +189,8 @@ func (f *memFile) WriteAt(p []byte, off int64) (int, error) {
 }
 
 func (f *memFile) Stat() (os.FileInfo, error) {
+	f.mu.RLock()
+	defer f.mu.RUnlock()
 	if f.refs == 0 {
 		return f, os.ErrClosed
 	}
@@ -156,6 +198,8 @@ func (f *memFile) Stat() (os.FileInfo, error) {
 }
 
 func (f *memFile) Sync() error {
+	f.mu.RLock()
+	defer f.mu.RUnlock()
 	if f.refs == 0 {
 		return os.ErrClosed
 	}
@@ -173,6 +217,8 @@ func (f *memFile) truncate(size int64) {
 }
 
 func (f *memFile) Truncate(size int64) error {
+	f.mu.Lock()
+	defer f.mu.Unlock()
 	if f.refs == 0 {
 		return os.ErrClosed
 	}
@@ -181,11 +227,15 @@ func (f *memFile) Truncate(size int64) error {
 }
 
 func (f *memFile) Name() string {
+	f.mu.RLock()
+	defer f.mu.RUnlock()
 	_, name := filepath.Split(f.name)
 	return name
 }
 
 func (f *memFile) Size() int64 {
+	f.mu.RLock()
+	defer f.mu.RUnlock()
 	return f.size
 }
 
@@ -215,6 +265,8 @@ func (f *memFile) Info() (os.FileInfo, error) {
 }
 
 func (f *memFile) Slice(start int64, end int64) ([]byte, error) {
+	f.mu.RLock()
+	defer f.mu.RUnlock()
 	if f.refs == 0 {
 		return nil, os.ErrClosed
 	}
@@ -248,6 +300,8 @@ func (f *seekableMemFile) Write(p []byte) (int, error) {
 }
 
 func (f *seekableMemFile) Seek(offset int64, whence int) (int64, error) {
+	f.mu.RLock()
+	defer f.mu.RUnlock()
 	if f.refs == 0 {
 		return 0, os.ErrClosed
 	}
